@@ -577,6 +577,11 @@ def u_drop_replace(W, sk):
     for k, d in enumerate(xs):
         twin = W.dim(d.letter, name=name_of(d.letter, True), tag=f"{d.letter}_twin")
         check_mutation(W, f"replace(clash {k})", S, W.call(lambda: S.x.replace(key, twin, inplace=ip)), ip, None, True, snap)
+        if k != j:
+            # ... also when the newcomer carries the *name* of the dimension it replaces (an "updated version" of it)
+            # but the letter of another member
+            namesake = W.dim(d.letter, name=xs[j].name, tag=f"{d.letter}_namesake")
+            check_mutation(W, f"replace(namesake with the letter of member {k})", S, W.call(lambda: S.x.replace(key, namesake, inplace=ip)), ip, None, True, snap)
     check_mutation(W, "replace(unknown key)", S, W.call(lambda: S.x.replace("q", new, inplace=ip)), ip, None, True, snap, exc=KeyError)
 
 
